@@ -6,9 +6,14 @@ var regDeviations = []string{"cd.type", "cd.challenge", "cd.origin", "cd.malform
 	"rawId.other", "owner.other", "attObj.malformed"}
 
 func regWithDeviation(c *Ctx, stream, format string, credAlg, attAlg int, devs ...string) {
+	regWithDeviationVar(c, stream, format, credAlg, attAlg, -1, devs...)
+}
+
+func regWithDeviationVar(c *Ctx, stream, format string, credAlg, attAlg int, v int, devs ...string) {
 	r := c.R
 	s := newRegSpec(r, format, credAlg)
 	s.AttAlg = attAlg
+	s.Var = v
 	name := ""
 	for _, d := range devs {
 		if name != "" {
@@ -90,6 +95,29 @@ func init() {
 						aa := pick(c.R, attAlgsFor(f))
 						regWithDeviation(c, "reg.dev."+dv, f, ca, aa, dv)
 					}
+				}
+			}
+		}},
+		Stream{"reg.deviationVariants", func(c *Ctx) {
+			// every variant of the deviations that have several (origins, challenges incl. non-canonical base64url spellings, types, RP ID hashes, raw ids)
+			for _, dv := range []string{"cd.type", "cd.challenge", "cd.origin", "ad.rpIdHash", "rawId.other"} {
+				for v := 0; v < maxVariants; v++ {
+					for _, f := range []string{"none", "packed-self", pick(c.R, allFormats[2:])} {
+						regWithDeviationVar(c, "reg.var."+dv, f, pick(c.R, credAlgsFor(f)), pick(c.R, attAlgsFor(f)), v, dv)
+					}
+				}
+			}
+			// challenge lengths 0..5 mod 3 so that every padding situation occurs
+			for l := 1; l <= 6; l++ {
+				for v := 0; v < maxVariants; v++ {
+					s := newRegSpec(c.R, "none", algES256)
+					s.Challenge = c.R.Bytes(l)
+					s.Var = v
+					s.Dev["cd.challenge"] = true
+					op := buildRegistration(c.R, s).Op()
+					op["_dev"] = "cd.challenge"
+					executors["register"](c, "reg.var.cd.challenge.len", op)
+					truth(c, "reg.var.cd.challenge.len.truth", op, false)
 				}
 			}
 		}},
